@@ -260,10 +260,16 @@ class Run:
             if circuits[0] is None:
                 self.fail("K1", "build", "no circuit could be started on a full mesh")
             replayed = False
+            swap_probed = False
             for _ in range(80):
                 await asyncio.sleep(1.0)
                 self.check_established(origin, circuits)
                 await self.probe(loop, origin, circuits, final=False)
+                if self.cid_swapped and not swap_probed:
+                    # right after the answer that names another tunnel's id has been handled (whatever it left behind
+                    # may expire later): the established circuit still ends where it ended
+                    swap_probed = True
+                    await self.probe(loop, origin, circuits, final=True)
                 if self.replay_later is not None and not replayed and loop.time() - vloop.EPOCH > \
                         origin.overlay.settings.next_hop_timeout + 1:
                     src, dst, data = self.replay_later
@@ -474,8 +480,25 @@ def _grid_shard(ctx: Ctx, shard: int, nshards: int) -> None:
                         ctx.violation(v)
 
 
+def _cid_shard(ctx: Ctx, shard: int, nshards: int) -> None:
+    # whether the relay of the main circuit also holds the exit end of the first one depends on the drawn peers: a
+    # fixed range of seeds makes the situation certain to occur, whatever VERIF_SEED is
+    k = 0
+    for hops in (2, 3):
+        for seed in range(16):
+            k += 1
+            if k % nshards != shard:
+                continue
+            try:
+                run_case(ctx, {"hops": hops, "seed": 1000 + seed, "second": False, "nht": 10, "manips": [],
+                               "cid_of_exit": 1})
+            except Violation as v:
+                ctx.violation(v)
+
+
 def run(ctx: Ctx) -> None:
     shard_run(ctx, _grid_shard)
+    shard_run(ctx, _cid_shard)
     shard_run(ctx, _shard, extra=(250 if ctx.quick else 16000,))
 
 
